@@ -141,7 +141,7 @@ def run_tlc(module, cfg, env=None, workers=1, timeout=900, cwd=TLA, extra=None, 
     cmd = ["java", "-XX:+UseParallelGC", "-Xss" + os.environ.get("VERIF_XSS", "256m"), "-Xmx" + xmx]
     if deque:
         cmd.append("-Dtlc2.tool.queue.IStateQueue=StateDeque")
-    cmd += ["-cp", JAR, "tlc2.TLC", "-workers", str(workers), "-metadir", md, "-config", cfg]
+    cmd += ["-cp", JAR, "tlc2.TLC", "-noGenerateSpecTE", "-workers", str(workers), "-metadir", md, "-config", cfg]
     if coverage:
         cmd += ["-coverage", "1"]
     if simulate:
@@ -198,7 +198,7 @@ def run_tlc(module, cfg, env=None, workers=1, timeout=900, cwd=TLA, extra=None, 
 def sany_all():
     bad = []
     for f in sorted(os.listdir(TLA)):
-        if f.endswith(".tla"):
+        if f.endswith(".tla") and "_TTrace_" not in f:      # (error-trace modules TLC may leave behind are not ours)
             p = subprocess.run(["java", "-cp", JAR, "tla2sany.SANY", f], cwd=TLA, capture_output=True, text=True)
             if p.returncode != 0 or "*** Errors" in p.stdout or "Fatal" in p.stdout:
                 bad.append((f, p.stdout[-1500:]))
